@@ -345,7 +345,10 @@ def project(fmt, mesh):
         for f in F:
             if len(f) == 3:
                 k = len(soup)
-                soup += [[f32(c) for c in V[i]] for i in f]
+                try:
+                    soup += [[f32(c) for c in V[i]] for i in f]
+                except OverflowError:
+                    raise ValueError("stl: coordinate outside the float32 range")
                 faces.append([k, k + 1, k + 2])
         out["vertices"] = soup
         out["faces"] = faces
